@@ -449,6 +449,18 @@ impl CommandAnalyzer {
             return;
         }
 
+        // Handle fixed-size arrays [T; N] and slices [T]: the element type comes before
+        // the last `;` (split_top_level keeps a nested `[U; M]` in one piece)
+        if rust_type.starts_with('[') && rust_type.ends_with(']') {
+            let inner = &rust_type[1..rust_type.len() - 1];
+            let element = match inner.rfind(';') {
+                Some(pos) if !inner[pos..].contains(']') => &inner[..pos],
+                _ => inner,
+            };
+            self.extract_type_names_recursive(element, type_names);
+            return;
+        }
+
         // Handle references
         if rust_type.starts_with('&') {
             let without_ref = rust_type.trim_start_matches('&');
